@@ -25,15 +25,16 @@ def txt(v):
     l = unlink(v)
     return l[2].strip('"') if l else (v[1] if v else "")
 
-def gen(rng):
+WHICH = {"C13": ["full"], "C19": ["full"], "C14": ["us", "ie"], "C15": ["open"], "C20": ["jp"], "C07": ["full"], "C16": ["full", "us", "ie", "open", "jp"]}
+def gen(rng, prop=None):
     assets = ["B1", "B2", "B3"][:rng.randint(1, 3)]; per = {}; days = []
     for a in assets:
-        c = P.gen(rng); rows = [r for r in c["rows"] if not (r[0] == "OUT" and r[9] is not None and r[9] != r[7] + r[8])]
+        c = P.gen(rng, "reports"); rows = [r for r in c["rows"] if not (r[0] == "OUT" and r[9] is not None and r[9] != r[7] + r[8])]
         per[a] = rows; days += [ldate(r[2], r[3]) for r in rows]
     days = sorted(set(days)); cand = days + [d + timedelta(days=1) for d in days] + [d - timedelta(days=1) for d in days]
-    fd = rng.choice([None] * 2 + cand); td = rng.choice([None] * 2 + cand)
+    fd = rng.choice(cand) if rng.random() < 0.4 else None; td = rng.choice(cand) if rng.random() < 0.4 else None
     if fd and td and fd > td: fd, td = td, fd
-    which = rng.choice(["full", "full", "us", "ie", "open", "jp"])
+    which = rng.choice(WHICH.get(prop, ["full", "full", "us", "ie", "open", "jp"]))
     if which in ("open", "jp"): fd = None
     return {"which": which, "assets": per, "sched": {"1970": rng.choice(["fifo", "lifo", "hifo", "lofo"]) if which not in ("ie", "jp") else "fifo"},
             "from": fd.isoformat() if fd else None, "to": td.isoformat() if td else None}
@@ -174,18 +175,35 @@ def parse_model(case, block):
     r = {"status": "ok", "rows": L}
     if sheets is not None: r["sheets"] = sheets
     return r
-def model(cases):
+def run_model(cases):
     out = common.run_driver("rdriver", [l for c in cases for l in encode(c)]).split("END\n")
     return [parse_model(c, b) for c, b in zip(cases, out)]
 def pub(r): return {k: v for k, v in r.items() if not k.startswith("_")}
-def same(i, m):
-    if i["status"].split(":")[0] != m["status"].split(":")[0]: return False
-    if i["status"] != "ok": return True
+KIND = {"IOIN": "inout", "IOOUT": "inout", "IOX": "inout", "TY": "taxsheet", "TB": "taxsheet", "TT": "taxsheet", "TP": "taxsheet", "TD": "detail", "SU": "summary",
+        "TR": "taxreport", "OA": "open", "OE": "open", "JS": "jp", "JR": "jp"}
+def strip_links(r):
+    if r[0] == "TD": return r[:9] + r[11:]
+    if r[0] == "SU": return r[:6]
+    return r
+def only_links(r):
+    if r[0] == "TD": return r[:3] + r[9:11]
+    if r[0] == "SU": return r[:2] + r[6:]
+    return None
+def diff(case, i, m):
+    if i["status"].split(":")[0] != m["status"].split(":")[0]: return ["status"]
+    if i["status"] != "ok": return []
     key = lambda t: json.dumps(t[:3], default=str)
-    return sorted(i["rows"], key=key) == sorted(m["rows"], key=key) and i.get("sheets") == m.get("sheets")
+    d = []
+    for comp in sorted(set(KIND.values())):
+        a = sorted([strip_links(r) for r in i["rows"] if KIND[r[0]] == comp], key=key); b = sorted([strip_links(r) for r in m["rows"] if KIND[r[0]] == comp], key=key)
+        if a != b: d.append(comp)
+    la = sorted([only_links(r) for r in i["rows"] if only_links(r)], key=key); lb = sorted([only_links(r) for r in m["rows"] if only_links(r)], key=key)
+    if la != lb: d.append("links")
+    if i.get("sheets") != m.get("sheets"): d.append("sheets")
+    return d
 
 # ---------------- oracles on the real files
-def oracle_c19(case, res):
+def oracle_c19(case, res, guard=True):
     if res["status"] != "ok" or case["which"] != "full": return None
     full = res["_full"]; shown = {}
     for r in res["rows"]:
@@ -206,7 +224,8 @@ def oracle_c19(case, res):
             first = [d[2] for d in det if yr(d) == r[3]]
             if not first or row != min(first): return f"Summary row {r[1]} ({r[2]}, {r[3]}) links to row {row}, first detail row of that year is {min(first) if first else None}"
     return None
-def oracle_c13(case, res):
+def oracle_c13(case, res, guard=True):
+    if res["status"].startswith(("gen-error", "crash")) and case["which"] in WHICH["C13"]: return f"the full report could not be generated ({res['status']}): nothing is listed"
     if res["status"] != "ok" or case["which"] != "full": return None
     a2c = res["_a2c"]
     for a, cd in a2c.items():
@@ -223,7 +242,8 @@ def oracle_c13(case, res):
         per = {}
         for r in det: per.setdefault(r[3], []).append(r[11])
     return None
-def oracle_c14(case, res):
+def oracle_c14(case, res, guard=True):
+    if res["status"].startswith(("gen-error", "crash")) and case["which"] in WHICH["C14"]: return f"the tax report could not be generated ({res['status']}): nothing is listed"
     if res["status"] != "ok" or case["which"] not in ("us", "ie"): return None
     want = {"sell": "Capital Gains", "gift": "Gifts", "donate": "Donations", "fee": "Investment Expenses", "lost": "Investment Expenses", "move": "Investment Expenses",
             "airdrop": "Airdrops", "hardfork": "Hard Forks", "income": "Income", "interest": "Interest", "mining": "Mining", "staking": "Staking", "wages": "Wages"}
@@ -235,7 +255,8 @@ def oracle_c14(case, res):
     if len({(r[1], r[2]) for r in res["rows"]}) != len(res["rows"]): return "a (sheet, row) is used twice"
     if sorted(set(r[1] for r in res["rows"])) != res["sheets"]: return f"sheets present {res['sheets']} vs sheets with rows"
     return None
-def oracle_c15(case, res):
+def oracle_c15(case, res, guard=True):
+    if res["status"].startswith(("gen-error", "crash")) and case["which"] in WHICH["C15"]: return f"the open-positions report could not be generated ({res['status']}): nothing is listed"
     if res["status"] != "ok" or case["which"] != "open": return None
     rowsOA = [r for r in res["rows"] if r[0] == "OA"]
     for a, cd in res["_a2c"].items():
@@ -251,7 +272,10 @@ def oracle_c15(case, res):
     w = sum(r[7] for r in rowsOA)
     if rowsOA and abs(w - 1) > 1e-9: return f"cost-basis weights add up to {w}"
     return None
-def oracle_c20(case, res):
+def fee_visible(case): return all(P.fee_fiat_visible({"rows": rows}) for rows in case["assets"].values())
+def oracle_c20(case, res, guard=True):
+    if guard and not fee_visible(case): return None      # finding F13 (hypothesis FeeFiatVisible)
+    if res["status"].startswith(("gen-error", "crash")) and case["which"] in WHICH["C20"]: return f"the Japanese tax report could not be generated ({res['status']}): nothing is listed"
     if res["status"] != "ok" or case["which"] != "jp": return None
     js = {r[1]: r for r in res["rows"] if r[0] == "JS"}; exp = set()
     for a, cd in res["_a2c"].items():
@@ -271,38 +295,22 @@ def oracle_c20(case, res):
     return None
 ORACLES = {"C13": oracle_c13, "C14": oracle_c14, "C15": oracle_c15, "C19": oracle_c19, "C20": oracle_c20}
 
-def shrink(case, failing):
-    cur = case; changed = True
-    while changed:
-        changed = False
-        for a in list(cur["assets"]):
-            if len(cur["assets"]) > 1:
-                cand = dict(cur, assets={k: v for k, v in cur["assets"].items() if k != a})
-                try:
-                    if failing(cand): cur = cand; changed = True; break
-                except Exception: pass
-            for k in range(len(cur["assets"][a])):
-                rows = cur["assets"][a][:k] + cur["assets"][a][k + 1:]
-                if not any(r[0] == "IN" for r in rows): continue
-                cand = dict(cur, assets=dict(cur["assets"], **{a: rows}))
-                try:
-                    if failing(cand): cur = cand; changed = True; break
-                except Exception: pass
-            if changed: break
-    return cur
-def main():
-    seed = int(sys.argv[1]); n = int(sys.argv[2]); props = sys.argv[3].split(",") if len(sys.argv) > 3 else list(ORACLES)
-    rng = random.Random(seed); cases = [gen(rng) for _ in range(n)]; impls = [run_impl(c) for c in cases]; models = model(cases)
-    res = {"evaluations": len(cases), "mismatches": [], "oracle": {p: [] for p in props}}; stats = defaultdict(int); seen = set()
-    for c, i, m in zip(cases, impls, models):
-        stats["which:" + c["which"]] += 1; stats["status:" + i["status"].split(":")[0]] += 1
-        if i["status"] == "ok": stats["rows"] += len(i["rows"]); seen.add(hashlib.sha1(json.dumps(c, sort_keys=True).encode()).hexdigest()) if len(i["rows"]) >= 3 else None
-        if not same(i, m) and len(res["mismatches"]) < 3:
-            small = shrink(c, lambda x: not same(run_impl(x), model([x])[0])); res["mismatches"].append({"case": small, "impl": pub(run_impl(small)), "model": model([small])[0]})
-        for p in props:
-            v = ORACLES[p](c, i)
-            if v and len(res["oracle"][p]) < 3:
-                small = shrink(c, lambda x, p=p: ORACLES[p](x, run_impl(x)) is not None); ri = run_impl(small); res["oracle"][p].append({"case": small, "impl": pub(ri), "what": ORACLES[p](small, ri)})
-    res["distinct_nontrivial"] = len(seen); res["stats"] = dict(stats); res["sample"] = {"case": cases[-1], "impl": pub(impls[-1])}
-    print(json.dumps(res, default=str))
-if __name__ == "__main__": main()
+def shrink_candidates(case):
+    for a in list(case["assets"]):
+        if len(case["assets"]) > 1:
+            yield dict(case, assets={k: v for k, v in case["assets"].items() if k != a})
+    for a in list(case["assets"]):
+        for k in range(len(case["assets"][a])):
+            rows = case["assets"][a][:k] + case["assets"][a][k + 1:]
+            if any(r[0] == "IN" for r in rows):
+                yield dict(case, assets=dict(case["assets"], **{a: rows}))
+    if case["from"]: yield dict(case, **{"from": None})
+    if case["to"]: yield dict(case, to=None)
+def nontrivial(case, i): return i["status"] == "ok" and len(i.get("rows", [])) >= 3
+def hypotheses_failed(case, prop): return ["FeeFiatVisible"] if prop in ("C20", "C16") and case["which"] == "jp" and not fee_visible(case) else []
+def note_stats(case, i, st):
+    st["which:" + case["which"]] += 1; st["status:" + i["status"].split(":")[0]] += 1; st["assets"] += len(case["assets"])
+    st["window:" + ("none" if not case["from"] and not case["to"] else "from+to" if case["from"] and case["to"] else "from" if case["from"] else "to")] += 1
+    if i["status"] == "ok":
+        st["rows"] += len(i["rows"])
+        for r in i["rows"]: st["rows:" + KIND[r[0]]] += 1
